@@ -174,8 +174,19 @@ func readAll(d *sdb.Database) (rows []string, err error) {
 		rows = append(rows, "rowid4:"+fmt.Sprint([]interface{}(r)))
 	}
 	note(hl.PKSelect("w", sqlittle.Key{"k2"}, func(r sqlittle.Row) { rows = append(rows, "pk:"+fmt.Sprint([]interface{}(r))) }, "c1"))
-	// low level with explicit lock
+	// low level with explicit lock: several reads inside ONE transaction (a
+	// header that is refused must stay refused for all of them)
 	if e := d.RLock(); e == nil {
+		_, e := d.Tables()
+		note(e)
+		if ix, e := d.NonRowidTable("w"); e != nil {
+			note(e)
+		} else {
+			note(ix.Scan(func(rec sdb.Record) bool {
+				rows = append(rows, fmt.Sprintf("loww:%v", rec))
+				return false
+			}))
+		}
 		if tab, e := d.Table("t"); e != nil {
 			note(e)
 		} else {
